@@ -65,7 +65,7 @@ type qrCase struct {
 	Level   int
 	N       int    // content length in characters of the mode
 	Forced  int    // QR_VERSION hint, -1 = none
-	Header  string // "" | "eci" | "gs1"
+	Header  string // "" | "eci" | "eci-euro" | "gs1" | "eci+gs1"
 	Margin  int    // writer only; -1 = default
 	ModeS   string `json:",omitempty"`
 	LevelS  string `json:",omitempty"`
@@ -90,6 +90,12 @@ func refFits(c qrCase, v int) bool {
 			return false
 		}
 		return len(bits) <= 8*qr.DataCodewords(v, l.ref)
+	case "eci+gs1": // both: ECI header, then the FNC1 indicator, then the segment
+		bits, err := qr.SegmentBits([]qr.Segment{{Mode: m.ref, Data: refData(m, c.N), ECI: 1}}, v)
+		if err != nil {
+			return false
+		}
+		return 4+len(bits) <= 8*qr.DataCodewords(v, l.ref)
 	case "gs1": // FNC1 in first position: one more 4-bit mode indicator (0101)
 		bits, err := qr.SegmentBits([]qr.Segment{{Mode: m.ref, Data: refData(m, c.N), ECI: -1}}, v)
 		if err != nil {
@@ -131,6 +137,10 @@ func qrHints(c qrCase) map[gozxing.EncodeHintType]interface{} {
 	}
 	if c.Header == "gs1" {
 		h[gozxing.EncodeHintType_GS1_FORMAT] = true
+	}
+	if c.Header == "eci+gs1" {
+		h[gozxing.EncodeHintType_CHARACTER_SET] = "ISO-8859-1"
+		h[gozxing.EncodeHintType_GS1_FORMAT] = "true"
 	}
 	if c.Forced >= 0 {
 		h[gozxing.EncodeHintType_QR_VERSION] = c.Forced
@@ -354,11 +364,12 @@ func qrHeaders() {
 	for li := range levels {
 		add(2, li, "eci")
 		add(2, li, "eci-euro")
-		for mi := 0; mi < 3; mi++ {
+		add(2, li, "eci+gs1")
+		for mi := 0; mi < 4; mi++ { // Kanji too: the indicator precedes whatever mode the content gets
 			add(mi, li, "gs1")
 		}
 	}
-	runQRCases("QR with ECI header (byte, ISO-8859-1 hint; and ISO-8859-15 with the euro sign: one byte in the symbol, three in the UTF-8 string) and FNC1 header (GS1, numeric/alphanumeric/byte): largest fitting n and n+1 per version x level, automatic and forced", byCost(cases), 4)
+	runQRCases("QR with ECI header (byte, ISO-8859-1 hint; and ISO-8859-15 with the euro sign: one byte in the symbol, three in the UTF-8 string) and FNC1 header (GS1, numeric/alphanumeric/byte/Kanji; and ECI + FNC1 together): largest fitting n and n+1 per version x level, automatic and forced", byCost(cases), 4)
 }
 
 // published figures of ISO/IEC 18004 Table 7, asserted literally against the library.
